@@ -16,7 +16,7 @@ SEC = 10**6
 MIN = 60 * SEC
 RULE = (
     "Hypothesis-generated scheduler runs on the virtual-time loop under a controlled wall clock: start instant with "
-    "microsecond resolution (biased to :00.000000 / :59.999999 / :30), horizon 3-8 (thorough: -30) virtual minutes, 1-3 "
+    "microsecond resolution (biased to :00.000000 / :59.999999 / :30), horizon 3-8 (thorough: -30) virtual minutes and, in one run of twelve, 62-130 minutes, 1-3 "
     "sources (scripted sources with stable schedule ids; optionally the real LabelScheduleSource, in half of those cases with two one-shot entries of EQUAL content), each with 0-3 cron "
     "schedules (minute-field variety, optional timedelta/zone offset, one malformed expression; a third of them created through the public kicker.schedule_by_cron / schedule_by_time API, cron ones also from CronSpec objects with int and str fields) and 0-3 one-shots "
     "with T anywhere in the horizon, biased to minute boundaries +{0, 1 us, 0.5 s, 1 s, 1 s + 1 us} and to the past; "
@@ -126,7 +126,8 @@ def scenario(max_h: int = 8) -> Any:
         "base": st.integers(clock.to_us(dtm.datetime(2024, 1, 1, tzinfo=clock.UTC)), clock.to_us(dtm.datetime(2026, 1, 1, tzinfo=clock.UTC))),
         "bsec": st.sampled_from([0, 0, 59, 59, 30, 1, 58, 13]),
         "bus": st.sampled_from([0, 0, 1, 500_000, 999_999]),
-        "horizon_min": st.integers(3, max_h),
+        # mostly a few minutes; one run in twelve spans more than two hours, so that hourly patterns ("M * * * *") come round again
+        "horizon_min": st.one_of(*([st.integers(3, max_h)] * 11 + [st.integers(62, 130)])),
         "sources": st.lists(src, min_size=1, max_size=3),
         "latencies": st.one_of(st.just([0.0]), st.just([0.0]), st.lists(st.sampled_from([0.0, 0.0, 0.5, 1.0, 2.0, 61.0]), min_size=1, max_size=4)),
         "kick_fail": st.one_of(st.just(set()), st.just(set()), st.sets(st.integers(0, 30), max_size=5)),
@@ -241,7 +242,7 @@ def run_case(case: Dict[str, Any]) -> Outcome:
         classes.add("label_source")
     out.info = info
     out.nontrivial = bool(classes - {"label_source"})
-    out.classes = sorted(classes)
+    out.classes = sorted(classes) + (["horizon_over_an_hour"] if H > 60 else [])
     out.trace = {"polls": {n: [[_fmt(p["t"]), p["failed"], p["listed"]] for p in pl[:4]] for n, pl in polls.items()},
                  "kicks": [[_fmt(k["t"]), k["tag"], k["ok"]] for k in kicks[:25]]}
     out.counters = {"kicks_observed": len(kicks), "virtual_minutes": H}
